@@ -289,6 +289,13 @@ func (vt *Model) cup(pm [][]int) {
 	if vt.cursor.row > row(vt.height()-1) {
 		vt.cursor.row = row(vt.height() - 1)
 	}
+	// A parameter of 0 means the default (1)
+	if vt.cursor.col < 0 {
+		vt.cursor.col = 0
+	}
+	if vt.cursor.row < 0 {
+		vt.cursor.row = 0
+	}
 }
 
 // Cursor Forward Tabulation (CHT) CSI Ps I
